@@ -110,6 +110,10 @@ def generate(rng, tier):
             # a user's palette that only re-uses the syntaxes of its parent palettes: no defaults of its own
             c["ids"] = ids = []
             c["no_defaults"] = True
+        if rng.random() < 0.15:
+            # the table of defaults is completed by other modules after the class statement and before the first use
+            # (an extension adds its items in place; or the whole table is assigned at start-up)
+            c["late_defaults"] = rng.choice(["in_place", "assigned"])
         if i and rng.random() < 0.12:
             # a user's palette class derived (plain Python inheritance) from another palette class: no table and
             # no parents of its own, the base's ones apply; some accessors re-bound
@@ -417,12 +421,29 @@ class World:
         ns = {"SYNTAX_DEFAULTS": spec["defaults"],
               "PARENT_PALETTES": [self.cls(p) for p in spec["parents"] if p in self.comp_spec] or None}
         bases = (color.Palette,)
+        late = None
+        full = spec["defaults"]
+        if spec.get("late_defaults") and isinstance(full, dict) and full and not spec.get("pybase"):
+            keys = list(full)
+            if spec["late_defaults"] == "in_place":
+                late = ("in_place", {k: full[k] for k in keys[1:]})
+                ns["SYNTAX_DEFAULTS"] = {keys[0]: full[keys[0]]}
+            else:
+                late = ("assigned", full)
+                ns["SYNTAX_DEFAULTS"] = {}
         if spec.get("pybase") in self.comp_spec:
             ns = {"__doc__": "derived from another palette class"}
             bases = (self.cls(spec["pybase"]),)
         for acc, sid in spec["accessors"].items():
             ns[acc] = color.ConfColor(sid)
-        return self.sut(f"class {name}", type, spec.get("cls_name", name), bases, ns)
+        cls = self.sut(f"class {name}", type, spec.get("cls_name", name), bases, ns)
+        if late is not None and not (spec.get("pybase") in self.comp_spec):
+            if late[0] == "in_place":
+                cls.SYNTAX_DEFAULTS.update(late[1])
+            else:
+                cls.SYNTAX_DEFAULTS = late[1]
+            self.stats["late_default_tables"] = self.stats.get("late_default_tables", 0) + 1
+        return cls
 
     def accessors(self, name):
         if name in REAL:
